@@ -195,6 +195,32 @@ def _ret_str(cls, meth):
     return consts, body
 
 
+def _enum_type(cls):
+    """SOEnumCol's SQLite type: follow `_sqliteType` through an alias (`_sqliteType = _postgresType`) or a
+    one-line delegation (`return self._checkType('sqlite')`) to the method that builds the string"""
+    target = '_sqliteType'
+    for _ in range(4):
+        alias = [n for n in cls.body if isinstance(n, ast.Assign) and ast.unparse(n.targets[0]) == target
+                 and isinstance(n.value, ast.Name)]
+        if alias:
+            target = alias[-1].value.id
+            continue
+        fn = find_func(cls, target)
+        body = strip_doc(fn.body)
+        if len(body) == 1 and isinstance(body[0], ast.Return) and isinstance(body[0].value, ast.Call) \
+                and isinstance(body[0].value.func, ast.Attribute) and ast.unparse(body[0].value.func.value) == 'self':
+            args = body[0].value.args
+            if args and not (len(args) == 1 and isinstance(args[0], ast.Constant) and args[0].value == 'sqlite'):
+                raise ExtractError('SOEnumCol.%s delegates with unexpected arguments: %s' % (target, ast.unparse(body[0])))
+            target = body[0].value.func.attr
+            continue
+        consts, _ = _ret_str(cls, target)
+        if len(consts) != 1:
+            raise ExtractError('SOEnumCol.%s: expected one type string, got %r' % (target, consts))
+        return consts[0]
+    raise ExtractError('SOEnumCol._sqliteType: delegation too deep')
+
+
 def _sqlite_types(tree):
     t = {}
 
@@ -218,10 +244,7 @@ def _sqlite_types(tree):
     t['time'] = one('SOTimeCol', '_sqliteType')
     t['decimal'] = one('SODecimalCol', '_sqlType')
     t['uuid'] = one('SOUuidCol', '_sqlType')
-    t['enum'] = one('SOEnumCol', '_postgresType')
-    cls = find_class(tree, 'SOEnumCol')
-    if not any(isinstance(n, ast.Assign) and ast.unparse(n) == '_sqliteType = _postgresType' for n in cls.body):
-        raise ExtractError('SOEnumCol._sqliteType is no longer _postgresType')
+    t['enum'] = _enum_type(find_class(tree, 'SOEnumCol'))
     # key_type = {int: "INT", str: "TEXT"}
     kc = find_class(tree, 'SOKeyCol')
     kt = None
